@@ -141,31 +141,31 @@ Theorem C16_maps_file_is_string : forall x, maps_file (x, None) = (Some x, None)
 Proof. exact maps_file_ok. Qed.
 Print Assumptions C16_maps_file_is_string.
 
-(* NOT PROVED (false of the code): "Maps.JsonString(safe) is the concatenation of the Json(safe) encodings".
-   The faithful model ignores the argument, as files.go does; proved on the domain safe = false ... *)
-Theorem C16_maps_json_string_partial : forall bs,
-  maps_json_string false (map Ok bs) = (concat (map (json_post false) bs), None).
-Proof. exact maps_json_string_partial. Qed.
-Print Assumptions C16_maps_json_string_partial.
-
-(* ... and refuted for safe = true: the witness is [ {"a":"<"} ] (KNOWN_FINDINGS key
-   maps-jsonstring-ignores-safeencoding) *)
-Theorem C16_maps_json_string_refuted :
-  exists bs, maps_json_string true (map Ok bs) <> (concat (map (json_post true) bs), None).
-Proof. exact maps_json_string_refuted. Qed.
-Print Assumptions C16_maps_json_string_refuted.
+(* Maps.JsonString(safe) is the concatenation of the Json(safe) encodings (after fix da6537e; on the pinned
+   tree the argument was ignored: witness [ {"a":"<"} ] with safe = true) *)
+Theorem C16_maps_json_string_concat : forall safe bs,
+  maps_json_string safe (map Ok bs) = (concat (map (json_post safe) bs), None).
+Proof. exact maps_json_string_concat. Qed.
+Print Assumptions C16_maps_json_string_concat.
 
 (* NOT PROVED (false of the code): "Maps.JsonStringIndent is the concatenation of the JsonIndent encodings".
-   A newline is written between the documents (witness [ {} ; {} ]); one document is returned as it is *)
+   A newline is written between the documents: refuted by the witness [ {} ; {} ] (KNOWN_FINDINGS key
+   maps-jsonstringindent-newline-separator) ... *)
 Theorem C16_maps_json_string_indent_refuted :
   exists bs, maps_json_string_indent false (map Ok bs) <> (concat (map (json_post false) bs), None).
 Proof. exact maps_json_string_indent_refuted. Qed.
 Print Assumptions C16_maps_json_string_indent_refuted.
 
-Theorem C16_maps_json_string_indent_partial : forall safe b,
-  maps_json_string_indent safe [Ok b] = (json_post false b, None).
-Proof. exact maps_json_string_indent_single. Qed.
+(* ... what holds instead: the JsonIndent(p, i, safe) encodings joined by "\n"; one document is returned as it is *)
+Theorem C16_maps_json_string_indent_partial : forall safe bs,
+  maps_json_string_indent safe (map Ok bs) = (join [ascii_of_nat 10] (map (json_post safe) bs), None).
+Proof. exact maps_json_string_indent_join. Qed.
 Print Assumptions C16_maps_json_string_indent_partial.
+
+Theorem C16_maps_json_string_indent_single : forall safe b,
+  maps_json_string_indent safe [Ok b] = (json_post safe b, None).
+Proof. exact maps_json_string_indent_single. Qed.
+Print Assumptions C16_maps_json_string_indent_single.
 
 (* ---------------- MapSeq ----------------
    NOT PROVED: seq_encode_perm_invariant / seq_children_in_sequence_order for MapSeq.Xml and
